@@ -3,14 +3,14 @@ import logging
 
 from canopen.sdo import SdoClient
 
-from props import c01, c04
+from props import c01, c04, c07_block
 from props.c01 import RefServer, Bus, make_od, parse_held, parse_xfer, err_name, show_frames, dl_token
 
 logging.disable(logging.CRITICAL)
 
 ID = "C07"
-PROOF_MODULES = ["CanopenProofs.C07"]
-GENERATED = ["Datatypes", "SdoConst"]
+PROOF_MODULES = ["CanopenProofs.C07", "CanopenProofs.C07Block"]
+GENERATED = ["Datatypes", "SdoConst", "SdoBlock"]
 THEOREMS = [
     "Canopen.C07.timeout_aborts",
     "Canopen.C07.abort_raises",
@@ -20,8 +20,29 @@ THEOREMS = [
     "Canopen.C07.upload_never_silently_wrong",
     "Canopen.C07.schedPeer_honest",
     "Canopen.C07.next_transfer_clean",
+    # block transfers (CanopenProofs/C07Block.lean)
+    "Canopen.C07.BD.initiate_lost_aborts",
+    "Canopen.C07.BD.ack_lost_aborts",
+    "Canopen.C07.BD.end_lost_aborts",
+    "Canopen.C07.BD.initiate_abort_raises",
+    "Canopen.C07.BD.ack_abort_raises",
+    "Canopen.C07.BD.end_abort_raises",
+    "Canopen.C07.BD.block_download_ok_exact_partial",
+    "Canopen.C07.BD.dup_ack_counterexample",
+    "Canopen.C07.BD.between_idle",
+    "Canopen.C07.BD.next_block_download_clean",
+    "Canopen.C07.BU.request_lost_aborts",
+    "Canopen.C07.BU.segment_lost_aborts",
+    "Canopen.C07.BU.end_lost_aborts",
+    "Canopen.C07.BU.request_abort_raises",
+    "Canopen.C07.BU.segment_abort_raises",
+    "Canopen.C07.BU.end_abort_raises",
+    "Canopen.C07.BU.between_idle",
 ]
-FINGERPRINT = c01.FINGERPRINT
+FINGERPRINT = c01.FINGERPRINT + [
+    "canopen.sdo.client:BlockDownloadStream",
+    "canopen.sdo.client:BlockUploadStream",
+]
 TRUSTED = c01.TRUSTED + [
     "a disturbance alters only what the client finds in its response queue (CanopenModel/Sdo/Disturb.lean); "
     "real time-outs are 'queue empty when the client looks'",
@@ -31,10 +52,20 @@ ASSUMPTIONS = [
     "a stale upload response that carries the expected command specifier, toggle bit and multiplexer, arriving "
     "between request and response, is indistinguishable by the protocol from the real one; such frames are "
     "excluded (hypothesis of upload_never_silently_wrong; never generated)",
-    "block transfers under disturbance are covered by the C12/C13 models; the missing abort frame after a lost "
-    "block response is recorded as a known finding",
+    "block transfers: a stale frame that has the form of a block acknowledge, arriving where an acknowledge is "
+    "expected, is indistinguishable by the protocol from the real one (no toggle, no sequence id) and is not "
+    "generated; duplicated acknowledges (explicit in the property) are, and are open findings; the wrong-toggle / "
+    "wrong-specifier / wrong-multiplexer kinds are applied to the command responses (initiate, acknowledge, end), "
+    "not to block-upload data segments, which have none of these fields",
+    "block ops: during a transfer the server's own time-out never fires before the client's; between two "
+    "transfers it does (a block transfer left open is aborted by the server with 0x05040000)",
 ]
-RULE = ("op dist: a transfer disturbed at request index `at` by one of lost / abort frame / wrong toggle / wrong "
+RULE = ("op bdist: a block download / upload whose `at`-th server response is lost / late / replaced by an abort frame / "
+        "given a wrong command specifier / wrong multiplexer (initiate) / duplicated (inline, deferred) / preceded by "
+        "a stale frame, or stale frames queued before the first request; every response index of transfers of 1, 7, "
+        "8, 30, 32, 50, 64 and 909 bytes, CRC on and off, changing block sizes; followed by two undisturbed "
+        "transfers (block and expedited/segmented, both directions) on the same client and server.  "
+        "op dist: a transfer disturbed at request index `at` by one of lost / abort frame / wrong toggle / wrong "
         "command specifier / wrong multiplexer / duplicate (inline, deferred) / late response / stale frame in "
         "between, followed by an undisturbed transfer on the same client and server; every step of expedited and "
         "segmented transfers in both directions, lengths on both sides of 4, 7, 14, 21; non-trivial = the first "
@@ -112,6 +143,8 @@ def run(held, style, at, kind, xfers):
 
 
 def run_impl(op):
+    if op.startswith("bdist "):
+        return c07_block.run_impl(op)
     a = op.split(" ")
     held = parse_held(a[1])
     style = (a[2] == "1", a[3] == "1", a[4] == "1", c04.unnl(a[5]))
@@ -123,6 +156,8 @@ def run_impl(op):
 
 
 def oracle(op, out):
+    if op.startswith("bdist "):
+        return c07_block.oracle(op, out)
     a = op.split(" ")
     if out.startswith("HARNESS"):
         return None
@@ -181,16 +216,22 @@ def oracle(op, out):
 
 
 def signature(op, what):
+    if op.startswith("bdist "):
+        return c07_block.signature(op, what)
     a = op.split(" ")
     return f"{a[7].split(':')[0]}:{what.split(' ')[0]}:{what.split(' ')[1] if ' ' in what else ''}"
 
 
 def nontrivial(op, out):
+    if op.startswith("bdist "):
+        return c07_block.nontrivial(op, out)
     rs = out.split(" | ")[0].split(";")
     return len(rs) == 2 and rs[1].startswith("ok")
 
 
 def classify(op, out):
+    if op.startswith("bdist "):
+        return c07_block.classify(op, out)
     a = op.split(" ")
     rs = out.split(" | ")[0].split(";")
     return f"{a[7].split(':')[0]}:{a[8][0]}:{rs[0].split(' ')[0] + (' ' + rs[0].split(' ')[1] if rs[0].startswith('err') else '')}"
@@ -207,6 +248,11 @@ def count_requests(held, style, xfer):
 
 
 def gen_ops(tier, rng):
+    yield from gen_seg_ops(tier, rng)
+    yield from c07_block.gen_ops(tier, rng)
+
+
+def gen_seg_ops(tier, rng):
     lens = [0, 1, 3, 4, 5, 7, 8, 13, 14, 15, 21, 22] + ([] if tier == "quick" else [28, 29, 35, 36, 50, 100])
     kinds_common = ["lost", "late", "dup", "dupd", "toggle", "scs:0", "scs:1", "scs:2", "scs:3", "scs:7", "mux"]
     codes = [0x05040000, 0x06090011, 0x08000000, 0, 0xFFFFFFFF, 0x06010002]
@@ -257,7 +303,13 @@ def gen_ops(tier, rng):
                     yield f"dist {held} {si} {ex} {es} {c04.nl(cuts)} {at} {kind} u:{idx}:{sub}:x;{x2}"
 
 
-CORPUS = []
+CORPUS = [
+    # replay of Canopen.C07.BD.dup_ack_counterexample on the real client (open finding bdist:down:ack:dup:wrong-data)
+    "bdist down 8192 3 h0102030405060708090a0b0c0d0e0f101112131415161718191a1b1c1d1e1f20 0 0 1,2 0 - 1 dup -",
+    # a lost first acknowledge: SdoCommunicationError and the time-out abort right after the segments
+    "bdist down 8192 3 h0102030405060708090a0b0c0d0e0f101112131415161718191a1b1c1d1e1f20 1 1 3,2 1 - 1 lost u;bd=r9:20",
+    "bdist up 8192 3 h0102030405060708090a0b0c0d0e0f101112131415161718191a1b1c1d1e1f20 1 1 3 1 - 6 lost d=h0102;bu",
+]
 
 LEVEL_TEXT = ("Lean 4 theorems about the client model under response disturbances: a request whose response does not "
               "arrive is followed by the abort frame 0x05040000 and a communication error (every step, any peer); an "
@@ -265,9 +317,18 @@ LEVEL_TEXT = ("Lean 4 theorems about the client model under response disturbance
               "exactly the payload under ANY alteration of the responses; an upload that returns normally under any "
               "schedule of lost / aborted / wrong-toggle / wrong-specifier / wrong-multiplexer / duplicated responses "
               "returns exactly the server's value; after anything (any server phase, any queue content) the next "
-              "transfer completes exactly; tied to the code by differential runs disturbing every step")
+              "transfer completes exactly; tied to the code by differential runs disturbing every step.  Block transfers "
+              "(models of BlockDownloadStream / BlockUploadStream with one server response disturbed): at every wait of "
+              "both streams, in every state, a response that does not arrive is followed by the abort frame 0x05040000 "
+              "and SdoCommunicationError, an abort frame raises SdoAbortedError with its code; a block download that "
+              "returns normally after a lost response / abort frame / wrong command specifier at ANY response index has "
+              "committed exactly the payload (closed counterexample for a duplicated acknowledge: open finding); after "
+              "the server has gone idle again a following block download commits exactly its payload whatever queue and "
+              "server record were left behind")
 LEVEL_NOTE = ("trusted: Lean kernel + standard axioms; disturbances act on the response queue only; real time-outs and "
               "threads are outside the model; a stale response identical in specifier/toggle/multiplexer to the "
-              "expected one is indistinguishable by the protocol and excluded; block transfers: see C12/C13 and the "
-              "known finding")
+              "expected one is indistinguishable by the protocol and excluded; block transfers: theorems (a), (b) are "
+              "local to each wait (all states, all environments), (c) is partial (false for duplicated acknowledges), "
+              "block uploads with a disturbed segment stream fall under the open re-synchronisation finding of C13; "
+              "a following block upload is covered by the differential run only")
 TECHNIQUE = "Lean 4 proof (frame-sequence determinism of the client, invariant under disturbance schedules) + differential correspondence"
